@@ -554,8 +554,10 @@ class VeriTOrPos(Macro):
         self.limit = None
 
     def eval(self, args, prevs=None):
+        if len(args) < 2 or not args[0].is_not():
+            raise VeriTException("or_pos", "first literal must be a negated disjunction")
         neg_disj = args[0]
-        disjs = neg_disj.arg.strip_disj()
+        disjs = strip_disj_n(neg_disj.arg, len(args) - 1) if len(args) - 1 <= len(neg_disj.arg.strip_disj()) else []
         for a, b in zip(disjs, args[1:]):
             if a != b:
                 raise VeriTException("or_pos", "unexpected goal: %s" % Or(*args))
